@@ -13,6 +13,7 @@ package gen
 // ---- Field interface (implemented by every generated field type)
 
 //@ iface Field.Write
+//@   verify[C01]
 //@   requires metaOK(meta) && external(w)
 //@   modifies meta, HA(meta.rowGroups), heap("sch.ColumnMetaData"), heap("map[string]sch.ColumnChunk"), wfault, snk, ser, relArr
 //@   ensures metaOK(meta) && meta.rowGroups == old(meta.rowGroups)
